@@ -30,13 +30,14 @@ CHECKS = {
         design='7/C02', technique='Coq proof (operation invariant over all passes) + stage-wise model/impl tree correspondence'),
     'C03': dict(
         text='Coq proof, for EVERY text, that the leaves of parse() are the lexer tokens of the split statements (same values; '
-             'types equal or re-typed to Operator) and that every group caches its current text (C03_leaves_and_cached, '
-             'C03_every_pass after each pass prefix), plus the offset-lookup theorem C03_at_offset. Parent pointers, '
-             'non-emptiness and the sibling/ancestry helpers are checked on every node of every generated tree by a direct '
-             'oracle on the implementation (partial: no theorem yet for those parts).',
-        note='Partial: the pure tree model has no object identity, so parent references/non-emptiness/navigation are decided by '
-             'exploration (oracle over all nodes), not by theorem. Trusted base as C02.',
-        design='7/C03', technique='Coq proof (leaf/cached invariants over all passes) + tree correspondence + per-node oracle'),
+             'types equal or re-typed to Operator), that every group caches its current text (C03_leaves_and_cached, '
+             'C03_every_pass after each pass prefix) and that every group of every parsed statement is non-empty (C03_nonempty, '
+             'from the totality development: no pass ever creates an empty group), plus the offset-lookup theorem C03_at_offset. '
+             'Parent pointers and the sibling/ancestry helpers are checked on every node of every generated tree by a direct '
+             'oracle on the implementation (partial: no theorem for those parts, the tree model has no object identity).',
+        note='Partial: parent references and navigation helpers are decided by exploration (oracle over all nodes), not by '
+             'theorem. Trusted base as C02.',
+        design='7/C03', technique='Coq proof (leaf/cached/non-empty invariants over all passes) + tree correspondence + per-node oracle'),
 }
 
 CHECKS.update({
@@ -133,6 +134,59 @@ CHECKS.update({
              'first initialisation leaves a half-initialised lexer: C20_xhistory_refuted).',
         note='Trusted: statement-level atomicity under the GIL; the inventory classification rules. One known finding.',
         design='7/C20', technique='Coq proof (schedule invariant, history state machine) + forced-schedule correspondence on real threads'),
+})
+
+CHECKS.update({
+    'C06': dict(
+        text='Layer 1 (all four layout filters, every option combination): a fail-closed translator regenerates the inventory of EVERY '
+             'tree-mutation site of ReindentFilter, AlignedIndentFilter, StripWhitespaceFilter, SpacesAroundOperatorsFilter with its '
+             'dominating guard; Coq checks that every site is whitespace-only (C06_sites_ws_only, vm_compute over the regenerated '
+             'inventory) and proves, for runs of ANY length of such edits anywhere in the tree, that the sequence of non-whitespace '
+             'leaves is preserved (C06_leaves_preserved, induction on the closure). Layers 2/3: exact Gallina models of '
+             'strip_whitespace, use_space_around_operators, reindent and the serializer (validated by string-equality correspondence '
+             'with sqlparse.format) with stripws_nonws_leaves, spaces_nonws_leaves, reindent_sigleaves and the exact serializer '
+             'characterisation. The link between L1 and the real control flow is a meta-argument backed by run-time instrumentation of '
+             'every mutation (trusted). Re-lexing (fused/split) and statement count are decided by the direct oracle; 11 listed findings '
+             '(GO fusion, serializer edits inside dollar-quoted literals/comments/backtick names, `#` operator turning into a comment, ...).',
+        note='Partial: token fusion at the text level is covered by exact models + oracle, not by a general theorem; L1 soundness w.r.t. the '
+             'code rests on the translator and the instrumentation self-test.',
+        design='7/C06', technique='Coq proof (site inventory obligation + run theorem; exact filter models) + instrumentation + oracle'),
+    'C07': dict(
+        text='Coq proofs: C07_parse_total / C07_group_total (lexing, splitting and all 25 grouping passes never fail, for every text: each '
+             'Err branch unreachable via index invariants, loop progress and a bracket-shape invariant; the invariant is shown necessary), '
+             'validate_options/build_filter_stack translated from the source on every run with C07_options_partial, C07_options_exn '
+             '(only SQLParseError -- or the two listed escapes OverflowError/ValueError -- for ALL option dictionaries), '
+             'validated_well_typed, C07_options_first (rejection before any lexing); strip_comments total; reindent total on a '
+             'decidable class of trees; accessor totality (accessors_raise_only: only get_window can raise on well-formed trees). '
+             'Direct oracle: parse/split/format x random valid option sets x every accessor on every node. Listed findings: get_window '
+             'AttributeError, `(as)` IndexError in strip_whitespace, reindent_aligned ValueError, three option-validation escapes.',
+        note='Partial: filters other than the modelled ones by oracle only; recursion depth is C15.',
+        design='7/C07', technique='Coq proof (totality of pipeline and of generated option validation) + correspondence + oracle'),
+    'C10': dict(
+        text='Exact Gallina models of StripWhitespaceFilter, SpacesAroundOperatorsFilter, SerializerUnicode and ReindentFilter (all '
+             'sub-options), each validated by correspondence on the final string of sqlparse.format; theorems for ALL trees: '
+             'stripws_total + normal form (sw_nf, flat_nf under edge_ok), spaces_nf, serialize_spec, reindent own-line lemma '
+             '(C10_reindent_own_line_partial) and totality on rx_safe trees. The full normal-form and fixed-point claims are REFUTED on the '
+             'unchanged tree (closed vm_compute witnesses replayed on the library): five listed strip/spaces findings and three reindent '
+             'findings, each with a mechanism-specific class predicate.',
+        note='Partial: the property is false of the unchanged tree in the listed ways; outside them it is decided by exact models + oracle.',
+        design='7/C10', technique='Coq proof over exact filter models + refutations + string-level correspondence + oracle'),
+    'C12': dict(
+        text='Exact accessor models (tied by the acc correspondence: every accessor on every node) and, for ALL name/qualifier/alias texts '
+             'and ALL whitespace runs, C12_reference: on the Identifier shapes produced by grouping (3 quotings x optional qualifier x '
+             '{none, AS alias, implicit alias}) the five accessors return exactly the written parts with quotes removed; closed examples '
+             'show cur_parse yields these shapes. That every syntactic context yields the canonical shape is decided by the direct oracle '
+             'over 40 contexts x quotings x alias forms x whitespace (one listed finding: INSERT target alias before a column list).',
+        note='Partial: pipeline-level shape by exploration (oracle) + closed examples; accessor level unbounded.',
+        design='7/C12', technique='Coq proof (accessor theorems on shapes) + acc correspondence + context oracle'),
+    'C18': dict(
+        text='Exact model of Statement.get_type (acc correspondence) with unbounded theorems get_type_keyword (any whitespace/comment '
+             'prefix, any continuation), get_type_cte, get_type_unknown_*, get_type_total; ASCII-case invariance of lexing (C_lex_case). '
+             'The full claim is REFUTED (keyword directly followed by `(`, `.`, `::`; CREATE OR REPLACE with irregular inner whitespace: '
+             'two listed findings). That the leading keyword stays the first significant child through the grouping passes is decided '
+             'by the direct oracle over all DML/DDL words x casings x prefixes x continuations.',
+        note='Partial (two listed findings; barrier lemma for the passes not proved).',
+        design='7/C18', technique='Coq proof (get_type theorems) + acc correspondence + oracle'),
 })
 
 NOT_YET = {}
